@@ -64,13 +64,15 @@ struct TolStub { Real eps; Real epsilon() { return eps; } };
 template <class T> struct VecRange { T* b; T* e; T* begin() const { return b; } T* end() const { return e; } };
 /* Dense copies (std::copy over R*, the copying constructor VectorBase(dim, ptr)) are modelled at the ghost position:
  * the destination becomes ARBITRARY except for the cell g_p, which receives the source cell (loop-free over-approximation;
- * every contract speaks about the cell g_p only, for every g_p).  CBMC's memcpy model (array_copy/array_replace with a
+ * every contract speaks about the cell g_p only, for every g_p).  The WHOLE destination object is havoc'd (the destination
+ * always is a whole array here); __CPROVER_havoc_slice with a symbolic size made cbmc 6.11 abort (boolbv_get) while reporting
+ * refuted mutants in --json-ui mode.  CBMC's memcpy model (array_copy/array_replace with a
  * symbolic size) lost the cell contents in a probe. */
 static inline void c05_copy(R* d, const R* s, int n)
 {
    if(n > 0)
    {
-      __CPROVER_havoc_slice(d, (size_t)n * sizeof(R));
+      __CPROVER_havoc_object(d);
       if(0 <= g_p && g_p < n) d[g_p] = s[g_p];
    }
 }
@@ -119,7 +121,7 @@ template <class T> struct VectorBase
       if(gp >= 0) t = vv[gp];
       if(n > 0)
       {
-         __CPROVER_havoc_slice(d, (size_t)n * sizeof(T));
+         __CPROVER_havoc_object(d);
          if(0 <= g_p && g_p < n) d[g_p] = t;
       }
       return *this;
